@@ -5,7 +5,7 @@ EXPLANATION = (
     "Abstract interpretation (E1) of the real MIR of StateMachine::consume and the 70-odd functions that touch the state machine / "
     "painter, over the finite domain (State variant, Source, subhunk buffers, merge buffer, output buffer, pending header, ...) x "
     "line classes derived from the literals the handlers test. At every inferred event the typestate rules are checked: ORD-W/ORD-B/ORD-M "
-    "(nothing rendered or buffered is overtaken by a direct write / append / merge-conflict paint), DROP (no buffer cleared unpainted), "
+    "(nothing rendered or buffered is overtaken by a direct write / append / merge-conflict paint), ORD-P (no removed line is buffered behind waiting added lines), DROP (no buffer cleared unpainted), "
     "ONCE (the hunk-line handler consumes each claimed line exactly once), EOF (nothing held back at end of input), TOTAL (a total "
     "fall-through handler exists). The fixpoint covers inputs of any length; events are recognised by field provenance, not by names.")
 
@@ -22,7 +22,7 @@ def run(F, tier, res):
     for m, r in R.items():
         if r['summary']['unmodelled']:
             res.violate('E1-INCOMPLETE', 'mode=%s' % m, 'the abstract interpreter hit an unmodelled construct: %r' % r['summary']['unmodelled'])
-    E.add_e1(res, R, {'ORD-W', 'ORD-B', 'ORD-M', 'DROP', 'ONCE', 'EOF', 'DECLINE-CONSUME'}, 'C01')
+    E.add_e1(res, R, {'ORD-W', 'ORD-B', 'ORD-M', 'ORD-P', 'DROP', 'ONCE', 'EOF', 'DECLINE-CONSUME'}, 'C01')
     N = R['N']
     es = N['event_sites']
     res.rule('C01.ORD-W', len(es.get('DIRECT_W', [])), 12, 'direct-write sites (function, callee) reached from consume; each checked in every abstract state reaching it: output_buffer and subhunk buffers empty',
